@@ -114,7 +114,7 @@ func (b *BatchDataCodingEncoder) Build(ctx context.Context) (contents [][]byte, 
 		})
 	}
 	_ = eg.Wait()
-	verifhook.PermuteBatch(len(encoders), func(i, j int) { encoders[i], encoders[j] = encoders[j], encoders[i] })
+	verifhook.PermuteBatch(len(encoders), func(i int) [2]int { return [2]int{encoders[i].msgFmt.ToInt(), encoders[i].msgFmt.Priority()} }, func(i, j int) { encoders[i], encoders[j] = encoders[j], encoders[i] })
 
 	// Filter out those that cannot be encoded.
 	encoders = lo.Filter(encoders, func(encoder *encoder, _ int) bool {
@@ -180,7 +180,7 @@ func (s *encoder) Name() string {
 }
 
 func (s *encoder) Run(ctx context.Context) {
-	verifhook.Yield("batch.run", s.msgFmt.ToInt(), s.msgFmt.Priority())
+	verifhook.Yield("batch.run", s.msgFmt.ToInt(), s.msgFmt.Priority(), int(s.frameKey), len(s.content))
 	var encoder datacoding.Codec
 	switch s.protocol {
 	case SMPP:
